@@ -1,5 +1,6 @@
 """C19 -- libfs sparse maps never hide data: every byte outside reported ranges is zero."""
 import json
+import bisect
 import os
 import random
 import subprocess
@@ -63,9 +64,10 @@ def gen_cases(tier, seed):
         segs = [[(1 << 20) + w0, r.choice([1, 4973, ln - w0])]]
         yield {"kind": "file", "size": (4 << 20) + r.choice([0, 1]), "segs": segs, "falloc": [[1 << 20, ln]], "sync": False, "fs": "ext4",
                "seed": r.randrange(1, 1 << 30), "first0": False, "lastbyte": False, "dense": False, "touching": False, "prealloc_unsynced": True}
-    for nseg in ([8300] if tier == "quick" else [8191, 8192, 8193, 12000, 20000]):
-        # thousands of extents (hundreds of FIEMAP pages): "for any number of extents"
-        segs = [[k * 3 * PAGE, PAGE if k % 7 else 100] for k in range(nseg)]
+    for nseg in ([8300, 33100] if tier == "quick" else [8191, 8192, 8193, 12000, 20000, 32767, 32768, 32769, 40000, 66000]):
+        # thousands of extents (hundreds, then more than a thousand FIEMAP pages): "for any number of extents"
+        stride = 3 * PAGE if nseg < 30000 else 2 * PAGE
+        segs = [[k * stride, PAGE if k % 7 else 100] for k in range(nseg)]
         yield {"kind": "file", "size": segs[-1][0] + segs[-1][1], "segs": segs, "sync": True, "fs": "ext4", "seed": r.randrange(1, 1 << 30),
                "first0": True, "lastbyte": True, "dense": False, "huge_count": True}
     for i in range(12 if tier == "quick" else 100):
@@ -106,13 +108,25 @@ def check_ranges(name, ranges, size, written, path, res, tag):
         pos = max(pos, e)
     if pos < size:
         gaps.append((pos, size))
+    wsorted = sorted(written)
+    wstarts = [w[0] for w in wsorted]
     fd = os.open(path, os.O_RDONLY)
     try:
         for a, z in gaps:
             if z <= a:
                 continue
             # only the parts of the gap that intersect something we wrote can be non-zero; for small files read it all
-            parts = [(a, z)] if size <= (256 << 20) else [(max(a, o), min(z, o + l)) for o, l in written if max(a, o) < min(z, o + l)]
+            if size <= (256 << 20):
+                parts = [(a, z)]
+            else:
+                # written segments (sorted by offset) that intersect the gap
+                k = max(0, bisect.bisect_left(wstarts, a) - 1)
+                parts = []
+                while k < len(wsorted) and wsorted[k][0] < z:
+                    o, l = wsorted[k]
+                    if max(a, o) < min(z, o + l):
+                        parts.append((max(a, o), min(z, o + l)))
+                    k += 1
             for x, y in parts:
                 p = x
                 while p < y:
